@@ -311,6 +311,7 @@ class World(EventDispatcher):
                     self.remove_handler(component)
 
             del self._entities[entity]
+            self._dead_entities.discard(entity)
 
         else:
             self._dead_entities.add(entity)
@@ -322,9 +323,23 @@ class World(EventDispatcher):
         the :meth:`delete_entity` method. If that method is changed,
         those changes should be duplicated here as well.
         """
-        for entity in self._dead_entities:
+        while self._dead_entities:
+            entity = next(iter(self._dead_entities))
 
-            for component_type, component in self._entities[entity].items():
+            if entity not in self._entities:
+                # Unknown entity, drop the mark so that the error is
+                # not raised again by every following call
+                self._dead_entities.discard(entity)
+                raise KeyError(entity)
+
+            # Components are detached one at a time, so that an
+            # exception raised by a callback leaves nothing half done
+            # for the next call.
+            components = self._entities[entity]
+            while components:
+                component_type = next(iter(components))
+                component = components.pop(component_type)
+
                 self._components[component_type].discard(entity)
 
                 if not self._components[component_type]:
@@ -351,8 +366,7 @@ class World(EventDispatcher):
                     self.remove_handler(component)
 
             del self._entities[entity]
-
-        self._dead_entities.clear()
+            self._dead_entities.discard(entity)
 
     def remove_component(self, entity: Hashable, component_type: type[C]):
         """Remove a component from an entity, if the entity owns one.
@@ -381,8 +395,10 @@ class World(EventDispatcher):
                     removed = self._entities[entity][subtype]
                     del self._entities[entity][subtype]
 
-                # Free dict entry for an entity if empty
-                if not self._entities[entity]:
+                # Free dict entry for an entity if empty. Entities
+                # marked as dead are freed by _clear_dead_entities
+                if (not self._entities[entity]
+                        and entity not in self._dead_entities):
                     del self._entities[entity]
 
                 if removed is not None:
